@@ -67,6 +67,7 @@ def deviations(ctx):
         j["cfg"] = j["cfg"].replace("Dev = {}", "Dev = " + dev)
         j["expect_violation"] = True
         jobs.append((j, inv))
+    jobs.append((dict(module="Sandbox", cfg=(scfg % '{"ZeroMeansUnset"}').replace("ExecOnlyUnderFilter", "PolicyAsWritten ExecOnlyUnderFilter"), name="dev_sandbox_zero", expect_violation=True), "PolicyAsWritten"))
     import c18
     jobs.append((dict(module="ProfileGen", cfg=(c18.GEN_CFG % (1, ctx.path("selftest_profile.json"))).replace("Dev = {}", 'Dev = {"NoTruncate"}'), name="dev_profile_notruncate",
                       expect_violation=True, workers=1), "ASSUME"))
